@@ -37,7 +37,7 @@ type pageRec struct {
 // MainC09 is the entry point of the C09 check.
 func MainC09() {
 	ev.Main("C09", "exploration",
-		"worlds of 5-80 permanodes whose creation/modification times are drawn from a small set (massive ties), incl. pre-1970 and sub-second instants; for each permanode constraint x continuable sort {-created,-mod, unspecified = the default} x limit {1,2,3,5,n-1,n,n+1}: continuation tokens are followed until exhaustion (bounded by ceil(n/limit)+2 pages) and the concatenation must equal the unlimited ordered result as a sequence; sorts without continuation {blobref, created}: no token and a correct first page, or an exact chain; for every pivot x limit {1,2,3,4,7,n,n+1} x sort {-created,-mod,unspecified,blobref}: an around-query is empty iff the pivot is not in the full result, else a contiguous window of it containing the pivot; families: fresh request per call / ONE constraint value reused across scrolls and around queries / the query as an expression / the world delivered in 5 stages to one live corpus (claims before the file they name, stages without claims) with paging after every stage; every request is compared before/after Handler.Query; distinct = (family, world, constraint, sort, limit[, pivot], mode[@stage]); non-trivial = the full result has more entries than the limit",
+		"worlds of 5-80 permanodes whose creation/modification times are drawn from a small set (massive ties), incl. pre-1970 and sub-second instants, equal instants written in different RFC 3339 zone notations (dateCreated/startDate/paymentDueDate/datePublished/dateModified attributes tied with each other, with claim dates and with file times), batches of typed (camliNodeType) permanodes with coinciding times; constraints incl. ones that pin a camliNodeType; for each permanode constraint x continuable sort {-created,-mod, unspecified = the default} x limit {1,2,3,5,n-1,n,n+1}: continuation tokens are followed until exhaustion (bounded by ceil(n/limit)+2 pages) and the concatenation must equal the unlimited ordered result as a sequence; sorts without continuation {blobref, created}: no token and a correct first page, or an exact chain; for every pivot x limit {1,2,3,4,7,n,n+1} x sort {-created,-mod,unspecified,blobref}: an around-query is empty iff the pivot is not in the full result, else a contiguous window of it containing the pivot; families: fresh request per call / ONE constraint value reused across scrolls and around queries / the query as an expression / the world delivered in 5 stages to one live corpus (claims before the file they name, stages without claims) with paging after every stage; every request is compared before/after Handler.Query; distinct = (family, world, constraint, sort, limit[, pivot], mode[@stage]); non-trivial = the full result has more entries than the limit",
 		runC09)
 }
 
@@ -92,6 +92,16 @@ func runC09(r *ev.Run) {
 		for i := 0; i < r.Pick(2, 5); i++ {
 			cons = append(cons, and(pn, g.pnLeaf(2)))
 		}
+		// constraints that pin a camliNodeType (the planner has a per-type candidate source), alone
+		// and and-ed with others; tied worlds hold a batch of typed permanodes with coinciding times
+		typed := func(t string) *search.Constraint {
+			return &search.Constraint{Permanode: &search.PermanodeConstraint{Attr: "camliNodeType", Value: t}}
+		}
+		ta, tb := w.nodeTypes[wi%2], w.nodeTypes[(wi+1)%2]
+		cons = append(cons, typed(ta), and(pn, typed(tb)))
+		if wi%2 == 0 {
+			cons = append(cons, and(typed(ta), &search.Constraint{Permanode: &search.PermanodeConstraint{SkipHidden: true}}))
+		}
 		for ci, c := range cons {
 			for _, m := range modes[:2] {
 				if (ci+wi)%2 == 1 && m.name == "corpus-scanned" {
@@ -111,9 +121,15 @@ func runC09(r *ev.Run) {
 			runStagedC09(r, w, wid, label)
 		}
 		r.Count("worlds", 1)
+		for k, n := range w.features {
+			r.Count("feature:"+k, n)
+			r.Note("world_features", k)
+		}
 	}
 	r.Require("time_features", "tied", "distinct", "pre-1970", "subsecond")
 	r.Require("sorts", "-created", "-mod", "blobref", "unspecified", "created", "unsorted")
+	r.Require("paging", "boundary-inside-tied-run", "boundary-inside-tied-run-across-zone-notations", "nodetype-constraint/-created/boundary-inside-tied-run", "nodetype-constraint/unspecified/boundary-inside-tied-run")
+	r.Require("world_features", "typed-batch-member", "date-attr/dateCreated", "date-attr/startDate", "date-attr/paymentDueDate", "date-attr/datePublished", "date-attr/dateModified", "date-attr/notation/Z", "date-attr/notation/+00:00", "date-attr/notation/+02:00", "date-attr/notation/-05:30")
 	r.Require("paging", "multi-page", "exact-multiple", "single-page", "limit-beyond-end", "default-sort", "constraint-value-reused-across-scrolls", "expression-query", "no-token-for-blobref")
 	r.Require("around", "pivot-matches", "pivot-does-not-match", "window-cut-both-sides", "limit-covers-everything", "created-asc-window", "unsorted-window")
 	r.Require("staged", "stage-without-claims", "late-file-changes-created-time", "content-claim-before-file")
@@ -438,6 +454,44 @@ func (p *pager) checkContinue(st search.SortType, lim int, full []blob.Ref) {
 	}
 	feature := timeFeature(w, full, eff)
 	rec.Times = w.timesOf(full, eff)
+	if continuable && pages > 1 {
+		// which kinds of tied runs did a page boundary fall into?
+		key := w.anyTime
+		if eff == search.LastModifiedDesc {
+			key = w.modtime
+		}
+		typedC := p.c != nil && impliesNodeType(p.c)
+		for b := lim; b < n; b += lim {
+			ta, _ := key(full[b-1])
+			tb, _ := key(full[b])
+			if !ta.Equal(tb) {
+				continue
+			}
+			r.Note("paging", "boundary-inside-tied-run")
+			if eff == search.CreatedDesc {
+				// the whole run of this instant: was it written in more than one zone notation?
+				zones := map[string]bool{}
+				for i := b; i < n; i++ {
+					if t, _ := key(full[i]); !t.Equal(ta) {
+						break
+					}
+					zones[w.anyZone(full[i])] = true
+				}
+				for i := b - 1; i >= 0; i-- {
+					if t, _ := key(full[i]); !t.Equal(ta) {
+						break
+					}
+					zones[w.anyZone(full[i])] = true
+				}
+				if len(zones) > 1 {
+					r.Note("paging", "boundary-inside-tied-run-across-zone-notations")
+				}
+				if typedC {
+					r.Note("paging", "nodetype-constraint/"+sortNames[st]+"/boundary-inside-tied-run")
+				}
+			}
+		}
+	}
 	if n > lim && lim > 1 && pages > 2 && p.fam == "" {
 		r.Sample(map[string]any{"world": wid, "constraint": json.RawMessage(cj), "sort": sortNames[st], "limit": lim, "mode": m.name, "pages": rec.Pages, "continue_tokens": rec.Tokens, "time_feature": feature})
 	}
@@ -482,27 +536,52 @@ func (p *pager) checkContinue(st search.SortType, lim int, full []blob.Ref) {
 	}
 }
 
+// impliesNodeType: the constraint pins a camliNodeType value (syntactically: such a permanode
+// constraint, or an "and" with such a side) — evidence only.
+func impliesNodeType(c *search.Constraint) bool {
+	if c == nil {
+		return false
+	}
+	if pc := c.Permanode; pc != nil && pc.Attr == "camliNodeType" && pc.Value != "" {
+		return true
+	}
+	if l := c.Logical; l != nil && l.Op == "and" {
+		return impliesNodeType(l.A) || impliesNodeType(l.B)
+	}
+	return false
+}
+
 // timeFeature classifies the times of the result list for signatures.
 func timeFeature(w *sworld, full []blob.Ref, st search.SortType) string {
 	key := w.anyTime
 	if st == search.LastModifiedDesc {
 		key = w.modtime
 	}
-	pre, tie := false, false
-	seen := map[int64]bool{}
+	pre, tie, zoneTie := false, false, false
+	seen := map[int64]string{}
 	for _, b := range full {
 		t, _ := key(b)
-		if t.Year() < 1970 {
+		if t.UTC().Year() < 1970 {
 			pre = true
 		}
-		if seen[t.UnixNano()] {
-			tie = true
+		z := "Z"
+		if st != search.LastModifiedDesc {
+			z = w.anyZone(b)
 		}
-		seen[t.UnixNano()] = true
+		if z0, ok := seen[t.UnixNano()]; ok {
+			tie = true
+			if z0 != z {
+				zoneTie = true
+			}
+		} else {
+			seen[t.UnixNano()] = z
+		}
 	}
 	switch {
 	case pre:
 		return "pre1970"
+	case zoneTie:
+		return "tie-across-zone-notations"
 	case tie:
 		return "tie"
 	}
